@@ -7,6 +7,8 @@
 //
 //   T <scheme> <comp> <classes> <xslot> <nmem> <prog>...
 //     <ntrain> {<label> <in0> <in1> <in2>}...  <nquery> {<in0> <in1> <in2>}...
+//   D ... (as T): damaged copies of the saved model text are fed to serialize::lambda::load;
+//        output  R d <variants> ok <n> null <n> df <n> other <n> <first other exception|->
 //   H <scheme> <comp> <classes> <xslot> <npool> <prog>...
 //     <ntrain> {...}  <nquery> {...}  <nops> <op>...
 //
@@ -292,6 +294,143 @@ std::string t_case(const casedata &c, MK mk, EV *ev)
   return out;
 }
 
+// ---------------------------------------------------------------- D cases
+// damaged model streams: the saved text cut at every token boundary (-1, 0,
+// +1 characters) and with single tokens substituted / removed, fed to
+// serialize::lambda::load.  Documented outcomes: a model, nullptr (no / unknown
+// id) or exception::data_format.
+template<class M, class P, class MK>
+std::string d_case(const casedata &c, MK mk)
+{
+  constexpr bool cls = std::is_base_of_v<core_class_lambda_f, M>;
+  dataframe &d(PR->data());
+  fill(d, c.train, c.classes);
+
+  std::unique_ptr<P> prg(new P(make_program<P>(c.progs)));
+  std::unique_ptr<M> m(new M(mk(*prg, d)));
+  prg.reset();
+  std::stringstream ss;
+  serialize::save(ss, *m);
+  const std::string text(ss.str());
+
+  // token boundaries
+  std::vector<std::pair<std::size_t, std::size_t>> toks;   // [begin, end)
+  for (std::size_t i(0); i < text.size();)
+  {
+    while (i < text.size() && std::isspace(static_cast<unsigned char>(text[i]))) ++i;
+    const std::size_t b(i);
+    while (i < text.size() && !std::isspace(static_cast<unsigned char>(text[i]))) ++i;
+    if (i > b) toks.push_back({b, i});
+  }
+
+  // the text of the member individuals is property C11/C12's (i_mep::load):
+  // tokens inside it are only cut, not substituted, and a stream damaged
+  // there is not run after a successful load
+  std::vector<std::pair<std::size_t, std::size_t>> spans;
+  {
+    std::size_t pos(0);
+    for (const auto &sp : c.progs)
+    {
+      std::stringstream si;
+      make_prog(sp).save(si);
+      const auto at(text.find(si.str(), pos));
+      if (at == std::string::npos) break;
+      spans.push_back({at, at + si.str().size()});
+      pos = at + si.str().size();
+    }
+  }
+  auto inside = [&](std::size_t k)
+  {
+    for (const auto &sp : spans)
+      if (toks[k].first >= sp.first && toks[k].second <= sp.second) return true;
+    return false;
+  };
+  std::vector<std::size_t> outer, inner;
+  for (std::size_t k(0); k < toks.size(); ++k) (inside(k) ? inner : outer).push_back(k);
+  auto pick = [&](std::size_t j) { return outer.size() <= 40 || j < 25 || j + 15 >= outer.size(); };
+
+  std::vector<std::string> variants;
+  std::vector<std::string> what;
+  std::vector<bool> runnable;
+  auto add_cuts = [&](std::size_t k, bool run)
+  {
+    for (int dlt(-1); dlt <= 1; ++dlt)
+    {
+      const long cut(static_cast<long>(toks[k].second) + dlt);
+      if (cut < 0 || cut > static_cast<long>(text.size())) continue;
+      variants.push_back(text.substr(0, static_cast<std::size_t>(cut)));
+      what.push_back("cut@" + std::to_string(k) + (dlt < 0 ? "-1" : dlt > 0 ? "+1" : ""));
+      runnable.push_back(run);
+    }
+  };
+  for (std::size_t j(0); j < outer.size(); ++j)
+    if (pick(j)) add_cuts(outer[j], true);
+  for (std::size_t j(0); j < inner.size(); j += std::max<std::size_t>(1, inner.size() / 4))
+    add_cuts(inner[j], false);
+  const char *subs[] = {"0", "-1", "99999999999999999999", "4294967296", "x", ""};
+  for (std::size_t j(0); j < outer.size(); ++j)
+    if (pick(j))
+      for (const char *sb : subs)
+      {
+        const std::size_t k(outer[j]);
+        variants.push_back(text.substr(0, toks[k].first) + sb + text.substr(toks[k].second));
+        what.push_back("sub@" + std::to_string(k) + "=" + (sb[0] ? sb : "<removed>"));
+        runnable.push_back(true);
+      }
+
+  std::size_t n_ok(0), n_null(0), n_df(0), n_other(0);
+  std::string first_other;
+  // at most `budget` variants per case (environment C08_D_BUDGET, default 60), strided;
+  // the offset depends on the text so that different cases cover different variants
+  const char *be(std::getenv("C08_D_BUDGET"));
+  const std::size_t budget(be ? std::max(1l, std::atol(be)) : 60);
+  const std::size_t stride((variants.size() + budget - 1) / budget);
+  std::size_t off(0);
+  for (unsigned char ch : text) off += ch;
+  for (std::size_t v(stride ? off % stride : 0); v < variants.size(); v += std::max<std::size_t>(1, stride))
+  {
+    std::istringstream in(variants[v]);
+    try
+    {
+      std::cerr << "D-LOAD " << what[v] << std::endl;
+      auto l(serialize::lambda::load<P>(in, PR->sset));
+      if (!l) { ++n_null; continue; }
+      ++n_ok;
+      // a stream that still loads: the object must be usable as far as it says it is valid
+      // run it only when the member individuals came through intact (a shifted
+      // stream can make i_mep::load accept garbage: that is property C12's)
+      bool intact(runnable[v]);
+      if (intact)
+      {
+        std::stringstream s2;
+        serialize::save(s2, l.get());
+        const std::string t2(s2.str());
+        std::size_t pos(0);
+        for (const auto &sp : spans)
+        {
+          const std::string it(text.substr(sp.first, sp.second - sp.first));
+          const auto at(t2.find(it, pos));
+          if (at == std::string::npos) { intact = false; break; }
+          pos = at + it.size();
+        }
+      }
+      if (intact && l->is_valid())
+      {
+        std::cerr << "D-RUN " << what[v] << std::endl;    // names the variant in a sanitizer report
+        for (const auto &r : c.query) (void)predict_dyn(l.get(), mk_example(r), cls);
+      }
+    }
+    catch (const exception::data_format &) { ++n_df; }
+    catch (const std::exception &e)
+    {
+      ++n_other;
+      if (first_other.empty()) first_other = what[v] + ":" + typeid(e).name();
+    }
+  }
+  return "R d " + std::to_string(variants.size()) + " ok " + std::to_string(n_ok) + " null " + std::to_string(n_null)
+         + " df " + std::to_string(n_df) + " other " + std::to_string(n_other) + " " + (first_other.empty() ? "-" : first_other);
+}
+
 // ---------------------------------------------------------------- H cases
 template<class M, class P, class MK>
 std::string h_case(const casedata &c, MK mk, reader &rd)
@@ -451,6 +590,8 @@ static std::string do_line(const std::string &line)
       EVEXPR;                                                                   \
       r = t_case<M, P>(c, mk, evp);                                             \
     }                                                                           \
+    else if (kind == "D")                                                       \
+      r = d_case<M, P>(c, mk);                                                  \
     else                                                                        \
       r = h_case<M, P>(c, mk, rd);                                              \
   }
